@@ -26,9 +26,14 @@ func (k Keeper) BeginBlocker(ctx context.Context) error {
 			err = k.ExecuteStartedStatus(ctx, auction)
 		case types.AuctionStatusVesting:
 			err = k.ExecuteVestingStatus(ctx, auction)
+		case types.AuctionStatusFinished, types.AuctionStatusCancelled:
+			// terminal statuses: nothing left to process
 		default:
 			err = fmt.Errorf("invalid auction status %s", auction.GetStatus())
 		}
+		if err != nil {
+			return err
+		}
 	}
-	return err
+	return nil
 }
